@@ -71,7 +71,26 @@ def judgeObs (t : T) (tips : List String) (rk : List String) (os : List Obs) : O
         some "two branches of the tree define the same split and have different hash codes"
       else none
 
-def handleIndex (script outcome dump ranks obs enum after2 rk0 obs0 : String) : Verdict :=
+/-- `Node.Depth()` of every node after the recompute against "distance to the closest tip"; `d0` = the depths the
+    nodes carried before it (finding F98, repaired by 7dc6678: they no longer matter). -/
+def judgeDepths (t : T) (d0 d1 : String) (tags : List String) : Verdict :=
+  match parseIntList d0, parseIntList d1 with
+  | some b, some a =>
+    let want := specDepths t
+    let stale := b.any (· != -1)
+    let unrooted := t.kids.length != 2
+    let tags := tags ++ tagIf stale "depths-set-before" ++ tagIf (stale && unrooted) "depths-set-before-unrooted" ++
+      tagIf (unrooted && computeDepthsPinned t b != want) "pinned-depths-would-be-stale"
+    let m := computeDepths t b
+    if a != want then
+      let i := (findIdx? (fun (p : Int × Int) => p.1 != p.2) (a.zip want)).getD 0
+      ⟨.oracle, tags, "Node.Depth() of node " ++ toString i ++ " (pre-order) is " ++ toString (a.getD i (-9)) ++
+        ", the closest tip is at " ++ toString (want.getD i (-9))⟩
+    else if m != a then ⟨.tie, tags, "model ComputeDepths differs"⟩
+    else ⟨.pass, tags, ""⟩
+  | _, _ => bad "C04.index depths"
+
+def handleIndex (script outcome dump ranks obs enum after2 rk0 obs0 d0 d1 : String) : Verdict :=
   if outcome == "malformed" then
     -- `dump` = the heap problems, `ranks` = the outcome of every step, `obs` = the first step after which
     -- the heap was malformed
@@ -158,7 +177,7 @@ def handleIndex (script outcome dump ranks obs enum after2 rk0 obs0 : String) : 
                 !(mo.1.bits == mo.2.bits && (mo.1.nleft : Int) == mo.2.nl && (mo.1.nright : Int) == mo.2.nr &&
                   mo.1.topoDepth.map (fun (x : Nat) => (x : Int)) == mo.2.td && mo.1.hashCode == mo.2.hc)) (mi.zip os) with
             | some i => ⟨.tie, tags, "branch " ++ toString i ++ ": model index differs (hash code or fields)"⟩
-            | none => if mi.length != os.length then ⟨.tie, tags, "model branch count"⟩ else ⟨.pass, tags, ""⟩
+            | none => if mi.length != os.length then ⟨.tie, tags, "model branch count"⟩ else judgeDepths t d0 d1 tags
     | _, _, _ =>
       -- a bitset of another width, a nil bitset, unusable ranks: the observation itself is wrong
       ⟨.oracle, tags, "unreadable index observation (bitset width / ranks / enumerations): " ++ String.ofList (ranks.toList.take 40)⟩
@@ -627,7 +646,7 @@ def handleSplits (dump copies outcome libdumps exit stdout : String) : Verdict :
 
 def handle (op : String) (f : List String) : Verdict :=
   match op, f with
-  | "index", [_, script, outcome, dump, ranks, obs, enum, after2, rk0, obs0] => handleIndex script outcome dump ranks obs enum after2 rk0 obs0
+  | "index", [_, script, outcome, dump, ranks, obs, enum, after2, rk0, obs0, d0, d1] => handleIndex script outcome dump ranks obs enum after2 rk0 obs0 d0 d1
   | "pairs", [d1, d2, outcome, hc1, hc2, heq, sb, fe, ce] => handlePairs d1 d2 outcome hc1 hc2 heq sb fe ce
   | "hm", [cap, lf, mode, ops, replies] => handleHM cap lf mode ops replies
   | "ei", [dumps, cap, lf, ops, outcome, replies] => handleEI dumps cap lf ops outcome replies
